@@ -55,7 +55,7 @@ impl Default for GenOpts {
     }
 }
 
-pub const NAMES: &[&str] = &[" ", "-", ".a", "..a", "0", "a", "a-", "a.b", "ab", "b", "c", "~", "ñ", "ñx", "日本", "Z", "a b"];
+pub const NAMES: &[&str] = &[" ", "-", ".a", "..a", "0", "a", "a-", "a.b", "ab", "b", "c", "~", "ñ", "ñx", "日本", "Z", "a b", "..\\x", "a\\..\\b", "...", "*"];
 pub const OWNERS: &[(u32, u32)] = &[(0, 0), (1, 1), (2, 2), (0, 2), (8, 8)];
 pub const MTIMES: &[i64] = &[
     0, 1, 1_000_000_000, 1_500_000_000, 999_999_999, 1_700_000_000_123_456_789, 2_147_483_648_000_000_000,
